@@ -81,6 +81,8 @@ func (w *World) verifyFunc(fi *FuncInfo, props []string) (res *FuncResult) {
 		}
 	}()
 	st := newState(c)
+	fx.entry = st
+	fx.emitAxioms(st)
 	// parameters
 	var sig *types.Signature
 	if fi.Lit != nil {
@@ -383,6 +385,7 @@ func (w *World) verifyLemma(l *Lemma) (res *FuncResult) {
 	mk := func() (*State, *SpecEnv) {
 		st := newState(c)
 		fx.entry = st
+		fx.emitAxioms(st)
 		env := &SpecEnv{fx: fx, st: st, old: st, bound: map[string]Val{}, pkg: pkg}
 		for _, p := range l.Params {
 			srt, gt := env.sortOfName(p.Type)
@@ -688,4 +691,15 @@ func (w *World) resolveModEntry(pkg *packages.Package, fi *FuncInfo, m string) (
 		cur = s.Field(idx).Type()
 	}
 	return []string{key}, nil
+}
+
+// emitAxioms states the axioms of the contract files (assumed facts about uninterpreted functions).
+func (fx *Fx) emitAxioms(st *State) {
+	for _, ax := range fx.w.Axioms {
+		func() {
+			defer func() { recover() }()
+			env := &SpecEnv{fx: fx, st: st, old: st, bound: map[string]Val{}, pkg: fx.pkg}
+			fx.c.lazyAxioms = append(fx.c.lazyAxioms, fx.specBool(env, ax.Expr))
+		}()
+	}
 }
